@@ -267,11 +267,37 @@ func ruleWIN4(c *Checker) {
 			}
 			return false
 		}
+		// the queue is known to be non-empty: size() != 0 or base != top among the facts
+		nonEmpty := func() bool {
+			for _, f := range facts {
+				bo, ok := f.Cond.(*ssa.BinOp)
+				if !ok {
+					continue
+				}
+				if call, ok := bo.X.(*ssa.Call); ok {
+					if sc := call.Common().StaticCallee(); sc != nil && sc.Name() == "size" && sc.Signature.Recv() != nil {
+						if k, isK := intConst(bo.Y); isK && lenFactNonEmpty(bo.Op, k, f.Val) {
+							return true
+						}
+					}
+				}
+				x, y := norm(bo.X), norm(bo.Y)
+				if (x == base && y == top) || (x == top && y == base) {
+					if (bo.Op == token.NEQ && f.Val) || (bo.Op == token.EQL && !f.Val) {
+						return true
+					}
+				}
+			}
+			return false
+		}
 		okk, why := false, ""
 		seenTemplate[fnName(fn)+"|"+val] = true
 		switch val {
 		case "((1+" + base + ")%" + s + ")":
 			okk, why = eqFact(base), "exact ACK: base+1 mod s under seq == base"
+			if okk && !nonEmpty() {
+				okk, why = false, "the exact-ACK leg is not protected by a non-empty test: a late duplicate ACK equal to base on an empty queue (base == top) moves the base past top, size() becomes N and then 0 with packets outstanding"
+			}
 		case "((1+param:seq)%" + s + ")":
 			okk = inWindow() || eqFact(base)
 			why = "cumulative ACK: seq+1 mod s under containsSequence(base, top, seq)"
